@@ -2,6 +2,7 @@ import RaftVerif.Core.LogsStep
 import RaftVerif.Proofs.ServerLocal
 import RaftVerif.Proofs.AELog
 import RaftVerif.Proofs.RunInv
+import RaftVerif.Proofs.RefineAE
 /-! # C04 — log matching and AppendEntries consistency.
 
 Registered: `RP.log_matching` (cluster model), `SV.ae_stale_term_inert`, `SV.ae_success_sound`,
